@@ -463,3 +463,8 @@ func HashedKnownHostsLine(port int, key ssh.PublicKey) string {
 func MarkedKnownHostsLine(marker, pattern string, key ssh.PublicKey) string {
 	return "@" + marker + " " + knownhosts.Line([]string{pattern}, key) + "\n"
 }
+
+// HashedKnownHostsLineFor is HashedKnownHostsLine for an arbitrary host name.
+func HashedKnownHostsLineFor(host string, port int, key ssh.PublicKey) string {
+	return knownhosts.Line([]string{knownhosts.HashHostname(knownhosts.Normalize(fmt.Sprintf("%s:%d", host, port)))}, key) + "\n"
+}
